@@ -94,6 +94,50 @@ Section Codec.
     | S f => rt_members (rt_type f) row m
     end.
 
+  (* ---- the vocabularies a value uses: what streams.Serialize names in the rebuilt @context.  A type's JSONLDContext is its
+     own vocabulary together with, for every property that holds something, the property's vocabulary and the contexts of the
+     values embedded in it (decided exactly as rt_type decides what is decoded as a typed value). ---- *)
+  Section Ctx.
+    Variable rec : type_row -> list (string * json) -> option (list (string * json)).
+    Variable crec : type_row -> list (string * json) -> list string.
+    Fixpoint cx_chain (e : json) (chain : list string) : list string :=
+      match chain with
+      | [] => []
+      | k :: rest =>
+          if is_literal_kind k then match norm k e with Some _ => [] | None => cx_chain e rest end
+          else match e, trow k with
+               | JObj em, Some r =>
+                   let tm := match assoc "type" em with Some tv => type_matches k tv | None => false end in
+                   if tm || t_typeless r then
+                     match rec r em with Some _ => crec r em | None => cx_chain e rest end
+                   else cx_chain e rest
+               | _, _ => cx_chain e rest
+               end
+      end.
+    Definition cx_elem (p : prop_row) (e : json) : list string :=
+      match e with
+      | JStr s => if mem "IRI" (p_deser p) && url_ok s then [] else cx_chain e (p_deser p)
+      | _ => cx_chain e (p_deser p)
+      end.
+    Definition cx_prop (p : prop_row) (v : json) : list string :=
+      if p_functional p then cx_elem p v
+      else match v with JArr l => flat_map (cx_elem p) l | x => cx_elem p x end.
+    Definition cx_member (row : type_row) (m : list (string * json)) (kv : string * json) : list string :=
+      match prop_of_key row (fst kv) with
+      | Some (p, is_map) =>
+          if is_map && match assoc (p_name p) m with Some _ => true | None => false end then []
+          else match rt_prop rec p (snd kv) with JNull => [] | _ => p_vocab_uri p :: cx_prop p (snd kv) end
+      | None => []
+      end.
+    Definition cx_members (row : type_row) (m : list (string * json)) : list string :=
+      t_vocab_uri row :: flat_map (cx_member row m) m.
+  End Ctx.
+  Fixpoint cx_type (fuel : nat) (row : type_row) (m : list (string * json)) : list string :=
+    match fuel with
+    | O => []
+    | S f => cx_members (rt_type f) (cx_type f) row m
+    end.
+
   (* the top level: streams.ToType picks the type by the "type" member; streams.Serialize rebuilds @context *)
   Definition type_of_doc (m : list (string * json)) : option type_row :=
     match assoc "type" m with
@@ -118,6 +162,14 @@ Section Codec.
     match doc with
     | JObj m => match type_of_doc m with
                 | Some row => match rt_type fuel row (remove_key "@context" m) with Some m' => Some (JObj (clean_maps 16 m')) | None => None end
+                | None => None
+                end
+    | _ => None
+    end.
+  Definition cx_doc (fuel : nat) (doc : json) : option (list string) :=
+    match doc with
+    | JObj m => match type_of_doc m with
+                | Some row => Some (filter (fun u => negb (String.eqb u "")) (cx_type fuel row (remove_key "@context" m)))
                 | None => None
                 end
     | _ => None
